@@ -21,6 +21,7 @@ def edit_cases():
         b2 = copy.deepcopy(base)
         b2["teams"][1]["targets"] = [1]
         out.append((base, b2, "team-remove-target"))
+        out.append((base, copy.deepcopy(b2), "team-drop-target"))  # the task is only taken off the team's own list (the task's mirror list is left alone)
         b3 = copy.deepcopy(base)
         b3["teams"][0]["workers"][0]["skills"]["T0"] = 2.0
         out.append((base, b3, "worker-skill"))
@@ -98,6 +99,8 @@ def apply_edit(m, name):
     elif name == "team-remove-target":
         m.byname["TM1"].targeted_task_list.remove(m.byname["T2"])
         m.byname["T2"].allocated_team_list.remove(m.byname["TM1"])
+    elif name == "team-drop-target":
+        m.byname["TM1"].targeted_task_list.remove(m.byname["T2"])
     elif name == "worker-skill":
         m.byname["W0"].workamount_skill_mean_map["T0"] = 2.0
     elif name == "task-work":
